@@ -6,9 +6,11 @@ import gmgen, rggen
 
 LEAN_MODULE = 'PGM.Properties.C16'
 LEAN_EXTRA = [
+    'PGM.Properties.C16G',
     'PGM.Properties.C17G',
 ]
 TRANSLATORS = (
+    'py2fg',      # the non-convex path of factor_graph.py (__init__, init_messages, loopy_belief_propagation, clique_marginals, primal_feasibility) -> Generated/FactorGraphG.lean, proved equal to Model/FactorGraph.lean in C16G
     'py2rg',      # region_graph.py (hazan_peng_shashua, generalized_belief_propagation, primal_feasibility, build_graph) -> Generated/RegionGraphG.lean, proved equal to Model/RegionGraph.lean in C17G
 )
 TRUSTED = ['Lean 4.33 kernel', 'axioms: propext, Classical.choice, Quot.sound',
